@@ -13,6 +13,7 @@
   or returns another value than the sentinel when nothing matched.
 -/
 import Proofs.GoTieUnwrap
+import Proofs.GoTieDecrypt
 namespace AgeModel
 namespace Tie.C04
 
@@ -21,6 +22,25 @@ theorem multiUnwrap_tie (u : Extracted.age_Stanza → Go.M (Bytes × Option Go.E
     ∃ r, Extracted.age_multiUnwrap GoTie.errorsIsEq u (ss.map GoTie.toGoStanza) = .ok r ∧
       GoTie.resClass r = multiUnwrap (fun s => GoTie.stanzaClass u (GoTie.toGoStanza s)) ss :=
   GoTie.multiUnwrap_tie u hU ss
+
+
+/-! ## age.Decrypt itself (DESIGN.md §5.3): the identity loop and the no-match error. `age.Decrypt`,
+    TRANSLATED from age.go on every run, returns what the model's `decryptInit` returns: when every
+    identity answers "incorrect identity", `NoIdentityMatchError` with EXACTLY one collected cause per
+    identity tried (`.noMatch n` ↦ the error value records `n`), and no reader
+    (`Props.C04.no_match_structure`, `reader_requires_key` are about the source text).
+    An observation the proof forced (`GoTie.DecryptEnv.hU`, fourth clause): `Decrypt` keeps the key an
+    identity returns even together with `ErrIncorrectIdentity`; the theorem therefore assumes, as is
+    true of every identity of the module, that "incorrect identity" comes with a nil key (DESIGN.md §9,
+    observations). -/
+
+theorem decrypt_tie (P : Prims) {ι : Type} (E : GoTie.DecryptEnv P ι) (file : Bytes) (ids : List ι) :
+    ∃ res, Extracted.age_Decrypt E.D E.U GoTie.errorsIsEq E.mac E.newReader E.key file ids = .ok res ∧
+      match (decryptInit P (ids.map E.idOf) file).1 with
+      | .ok (k, payload) => res = (k ++ payload, none)
+      | .error (.fatal _) => res.2 ≠ none ∧ res.2 ≠ Extracted.age_ErrIncorrectIdentity
+      | .error e => res = ([], GoTie.decryptErr e none) :=
+  GoTie.decrypt_tie P E file ids
 
 end Tie.C04
 end AgeModel
